@@ -60,6 +60,8 @@ impl Writer {
             ));
         }
 
+        #[cfg(walrus_verif)]
+        crate::wal::verif::sched_point("w_start");
         let mut block = self.current_block.lock().map_err(|_| {
             std::io::Error::new(std::io::ErrorKind::Other, "current_block lock poisoned")
         })?;
@@ -83,6 +85,8 @@ impl Writer {
             sealed.mmap.flush()?;
             let _ = self.reader.append_block_to_chain(&self.col, sealed);
             debug_print!("[writer] appended sealed block to chain: col={}", self.col);
+            #[cfg(walrus_verif)]
+            crate::wal::verif::sched_point("w_after_seal");
             // switch to new block
             // SAFETY: We hold `current_block` and `current_offset` mutexes, so
             // this writer has exclusive ownership of the active block. The
@@ -98,6 +102,8 @@ impl Writer {
         }
         let next_block_start = block.offset + block.limit; // simplistic for now
         block.write(*cur, data, &self.col, next_block_start)?;
+        #[cfg(walrus_verif)]
+        crate::wal::verif::sched_point("w_after_write");
         debug_print!(
             "[writer] wrote: col={}, block_id={}, offset_before={}, bytes={}, offset_after={}",
             self.col,
@@ -184,6 +190,8 @@ impl Writer {
         let _guard = BatchGuard {
             flag: &self.is_batch_writing,
         };
+        #[cfg(walrus_verif)]
+        crate::wal::verif::sched_point("bw_after_flag");
 
         debug_print!(
             "[batch] START: col={}, entries={}, total_bytes={}",
@@ -236,6 +244,8 @@ impl Writer {
                 sealed.used = planning_offset;
                 sealed.mmap.flush()?;
                 let _ = self.reader.append_block_to_chain(&self.col, sealed);
+                #[cfg(walrus_verif)]
+                crate::wal::verif::sched_point("bw_after_seal");
 
                 // Allocate new block
                 // SAFETY: We hold locks, so this writer has exclusive ownership
@@ -292,6 +302,8 @@ impl Writer {
             }
         }
 
+        #[cfg(walrus_verif)]
+        crate::wal::verif::sched_point("bw_before_io");
         // Fallback: use regular block.write() in a loop (mmap backend or non-Linux builds)
         for (blk, offset, data_idx) in write_plan.iter() {
             let data = batch[*data_idx];
@@ -328,6 +340,8 @@ impl Writer {
             }
         }
 
+        #[cfg(walrus_verif)]
+        crate::wal::verif::sched_point("bw_before_publish");
         // NOW update the writer's offset to make data visible to readers
         *cur_offset = planning_offset;
 
@@ -427,6 +441,27 @@ impl Writer {
             write_plan.len()
         );
 
+        #[cfg(walrus_verif)]
+        {
+            crate::wal::verif::sched_point("bw_before_io");
+            let verif_writes: Vec<(String, i32, u64, &[u8])> = write_plan
+                .iter()
+                .zip(buffers.iter())
+                .map(|((blk, off, _), buf)| {
+                    (
+                        blk.mmap.verif_path().to_string(),
+                        blk.mmap
+                            .storage()
+                            .as_fd()
+                            .map(|f| f.file().as_raw_fd())
+                            .unwrap_or(-1),
+                        blk.offset + *off,
+                        buf.as_slice(),
+                    )
+                })
+                .collect();
+            crate::wal::verif::uring_batch(&verif_writes);
+        }
         // Phase 3: Atomic submission
         match ring.submit_and_wait(write_plan.len()) {
             Ok(_) => {
@@ -436,6 +471,14 @@ impl Writer {
                         let data_idx = cqe.user_data() as usize;
                         let expected_bytes = buffers.get(data_idx).map(|b| b.len()).unwrap_or(0);
                         let result = cqe.result();
+                        #[cfg(walrus_verif)]
+                        let result = if crate::wal::verif::fault("uring_cqe_fail") {
+                            -5
+                        } else if crate::wal::verif::fault("uring_cqe_short") {
+                            result - 1
+                        } else {
+                            result
+                        };
 
                         if result < 0 {
                             all_success = false;
@@ -492,6 +535,8 @@ impl Writer {
                     }
                 }
 
+                #[cfg(walrus_verif)]
+                crate::wal::verif::sched_point("bw_before_publish");
                 // NOW update the writer's offset to make data visible to readers
                 *cur_offset = planning_offset;
 
